@@ -299,6 +299,9 @@ func (ev *evaluator) runtimeLen(r Ref) int {
 	if r.buf == nil || r.lay == nil || r.lay.Stride <= 0 {
 		ev.trap("length of an unsized array that is not in a buffer")
 	}
+	if !r.buf.bound {
+		ev.trap("unsupported: access to block %s which has no buffer bound", r.buf.blk.Name)
+	}
 	n := (len(r.buf.data) - r.off) / r.lay.Stride
 	if n < 0 {
 		n = 0
